@@ -1,6 +1,7 @@
 package main
 
 import (
+	"go/constant"
 	"fmt"
 	"go/token"
 	"go/types"
@@ -28,6 +29,7 @@ func init() {
 			ruleLoopDrivers(r, "F8", "the scheduler poll stays periodic: in package transport/multi every receive inside a loop from a time source is a Ticker, a time.After, or a Timer that is re-armed inside the loop when its branch continues the loop", func(fn *ssa.Function) bool { return fnPkgPath(fn) == modPath+"/transport/multi" }, 1)
 			ruleNoSwallowedErrors(r, "F9", 20, true, "/transport/websocket", "/transport/websocket/", "/transport/quic", "/transport/webtransport", "/transport/compress", "/transport")
 			ruleCounterDirection(r, "F10", "/transport/websocket", "/transport/quic", "/transport/webtransport", "/transport")
+			ruleC13F11(r)
 		},
 	})
 }
@@ -548,5 +550,88 @@ func ruleC13F7(r *Run) {
 	}
 	if n == 0 {
 		r.Undecided("inflating decoders", "no flate reader in the websocket transport")
+	}
+}
+
+// ruleC13F11: the WebSocket libraries behind two of the three backends (coder/websocket and nhooyr.io/websocket)
+// refuse any message larger than their package constant defaultReadLimit (32768 bytes) until SetReadLimit is
+// called on the connection. The transport promises messages of any size, so every place that obtains such a
+// connection from the library must lift the limit (a negative argument disables it) before the connection is used.
+func ruleC13F11(r *Run) {
+	r.Begin("F11", "the library's default read limit is lifted: wherever a module function receives a connection from a package that declares a positive constant defaultReadLimit and whose connection type has a method SetReadLimit, that function calls SetReadLimit on the connection with a negative constant (sibling agreement between the websocket backends)", 1)
+	p := r.P
+	n := 0
+	for _, fn := range p.Funcs {
+		if fn.Blocks == nil || !strings.HasPrefix(fnPkgPath(fn), modPath+"/transport/websocket") {
+			continue
+		}
+		allInstrs(fn, func(ins ssa.Instruction) {
+			c, ok := ins.(*ssa.Call)
+			if !ok {
+				return
+			}
+			cal := c.Call.StaticCallee()
+			if cal == nil || cal.Pkg == nil || p.Analysed(cal) || cal.Signature.Recv() != nil {
+				return
+			}
+			lim := cal.Pkg.Pkg.Scope().Lookup("defaultReadLimit")
+			k, isConst := lim.(*types.Const)
+			if !isConst {
+				return
+			}
+			if v, exact := constant.Int64Val(k.Val()); !exact || v <= 0 {
+				return
+			}
+			// which result is the connection?
+			var conn ssa.Value
+			res := cal.Signature.Results()
+			for i := 0; i < res.Len(); i++ {
+				nt := namedOf(res.At(i).Type())
+				if nt == nil || nt.Obj().Pkg() != cal.Pkg.Pkg {
+					continue
+				}
+				ms := types.NewMethodSet(types.NewPointer(nt))
+				has := false
+				for j := 0; j < ms.Len(); j++ {
+					if ms.At(j).Obj().Name() == "SetReadLimit" {
+						has = true
+					}
+				}
+				if !has {
+					continue
+				}
+				if res.Len() == 1 {
+					conn = c
+				} else if c.Referrers() != nil {
+					for _, ref := range *c.Referrers() {
+						if ex, isEx := ref.(*ssa.Extract); isEx && ex.Index == i {
+							conn = ex
+						}
+					}
+				}
+			}
+			if conn == nil {
+				return
+			}
+			n++
+			name := fnName(fn)
+			lifted := false
+			allInstrs(fn, func(x ssa.Instruction) {
+				sc, isCall := x.(*ssa.Call)
+				if !isCall || sc.Call.StaticCallee() == nil || sc.Call.StaticCallee().Name() != "SetReadLimit" || len(sc.Call.Args) != 2 {
+					return
+				}
+				if !sameValue(sc.Call.Args[0], conn) && sc.Call.Args[0] != conn {
+					return
+				}
+				if v, isK := constInt(sc.Call.Args[1]); isK && v < 0 {
+					lifted = true
+				}
+			})
+			r.Check(name+" lifts the read limit of "+cal.Pkg.Pkg.Name()+"."+cal.Name(), lifted, posOf(p, c), name, fmt.Sprintf("%s declares defaultReadLimit = %s: until SetReadLimit(-1) is called on the connection every received message larger than that is refused and the connection closed", cal.Pkg.Pkg.Path(), k.Val()))
+		})
+	}
+	if n == 0 {
+		r.Undecided("library connections", "no call obtains a connection from a package with a default read limit")
 	}
 }
